@@ -174,8 +174,11 @@ def run(ctx):  # noqa: C901
     psd_all = any(rn is not None and Ne(rn.value) == ("c", False) and any(x[0] == "inloop" for x in facts) and
                   any(pol and t[0] == "not" and "is_positive_semidefinite" in repr(t) for t, pol in [(Ne(a), b) for a, b in flw.conds(facts)]) for rn, facts in res.returns)
     fin = ret_last(en, inline=False)
-    okf = fin is not None and fin[0] == "call" and fin[1] == "numpy.allclose" and ("c", 1) in fin[2] and ("n", "trace_sum") in fin[2]
-    acc = any(isinstance(n, ast.AugAssign) and unparse(n).replace(" ", "") == "trace_sum+=np.trace(state)" for n in walk_no_nested(en.node))
+    from .. import pmatch
+    accs = pmatch.find(en.node, ["_S += np.trace(_X)", "_S = _S + np.trace(_X)"])
+    accn = accs[0][0].target.id if accs and isinstance(accs[0][0], ast.AugAssign) and isinstance(accs[0][0].target, ast.Name) else accs[0][0].targets[0].id if accs else None
+    okf = fin is not None and fin[0] == "call" and fin[1] == "numpy.allclose" and ("c", 1) in fin[2] and accn is not None and ("n", accn) in fin[2]
+    acc = bool(accs)
     ctx.ob("R-PRED", en, "ensemble == every element PSD and traces sum to 1", psd_all and okf and acc, "loop over all states + total trace" if psd_all and okf and acc else "the PSD test per element or the total-trace test is missing")
     # nonnegative / stochastic
     nn = F(m, "is_nonnegative")
@@ -272,7 +275,11 @@ def run(ctx):  # noqa: C901
         okp, detp = check_power_by_squaring(h)
         ctx.ob("R-ENUM", tn, "tensor(M, n): the repeated-squaring helper multiplies exactly n factors", okp, detp, h, required=okp is not None)
         c = pw_calls[0]
-        okc = len(c.args) == 2 and unparse(c.args[0]) == "args[0]" and (unparse(c.args[1]) in ("args[1]", "num_tensor"))
+        hp = [a.arg for a in h.args.args]
+        bound = {hp[i]: a for i, a in enumerate(c.args) if i < len(hp)}
+        bound.update({kw.arg: kw.value for kw in c.keywords if kw.arg})
+        a0, a1 = (bound.get(hp[0]), bound.get(hp[1])) if len(hp) == 2 else (None, None)
+        okc = a0 is not None and a1 is not None and unparse(a0) == "args[0]" and (unparse(a1) in ("args[1]", "num_tensor"))
         ctx.ob("R-THREAD", tn, "tensor(M, n) hands (M, n) to the helper", okc, unparse(c)[:50], c)
     else:
         loops_ok = None
@@ -294,8 +301,24 @@ def run(ctx):  # noqa: C901
     srt = [n for n in walk_no_nested(mj.node) if isinstance(n, ast.Subscript) and isinstance(n.value, ast.Call) and m.resolve_call(mj, n.value).key == "numpy.sort"]
     oksrt = len(srt) == 2 and all(isinstance(s.slice, ast.Slice) and isinstance(s.slice.step, ast.UnaryOp) for s in srt)
     ctx.ob("R-PRED", mj, "both vectors sorted in decreasing order", oksrt, "np.sort(..)[::-1] twice" if oksrt else "descending sort missing on one side")
-    cmpn = [n for n in walk_no_nested(mj.node) if isinstance(n, ast.If) and unparse(n.test).replace(" ", "") in ("cta<ctb", "ctb>cta")]
-    ctx.ob("R-PRED", mj, "a majorizes b: every partial sum of a >= that of b", bool(cmpn), "cta < ctb => False" if cmpn else "partial-sum comparison changed")
+    # partial sums: _A accumulates the first vector, _B the second; `if _A < _B: return False`
+    accs_m = pmatch.find(mj.node, ["_S += _V[_I]", "_S = _S + _V[_I]"])
+    acc_of = {}
+    for n_, env_, _src in accs_m:
+        tgt = n_.target.id if isinstance(n_, ast.AugAssign) else n_.targets[0].id
+        bases = {x.value.id for x in ast.walk(n_.value) if isinstance(x, ast.Subscript) and isinstance(x.value, ast.Name)}
+        acc_of[tgt] = "a" if bases == {"a_var"} else "b" if bases == {"b_var"} else "?"
+    cmpn = None
+    for n_ in walk_no_nested(mj.node):
+        if isinstance(n_, ast.If) and isinstance(n_.test, ast.Compare) and len(n_.test.ops) == 1 and isinstance(n_.test.left, ast.Name) and isinstance(n_.test.comparators[0], ast.Name) \
+                and any(isinstance(x, ast.Return) and isinstance(x.value, ast.Constant) and x.value.value is False for x in n_.body):
+            l_, r_ = acc_of.get(n_.test.left.id), acc_of.get(n_.test.comparators[0].id)
+            op = n_.test.ops[0]
+            if {l_, r_} == {"a", "b"}:
+                # False exactly when partial(a) < partial(b)
+                cmpn = (l_ == "a" and isinstance(op, ast.Lt)) or (l_ == "b" and isinstance(op, ast.Gt))
+    ctx.ob("R-PRED", mj, "a majorizes b: every partial sum of a >= that of b", cmpn, "partial(a) < partial(b) => False" if cmpn else
+           "the partial-sum comparison rejects in the wrong direction (or not strictly)" if cmpn is False else "partial-sum comparison not recognised", required=cmpn is not None)
     # state-set predicates purity
     for nm in ("is_hermitian", "is_density", "is_identity"):
         r_effect_free(ctx, F(m, nm), ["mat"])
